@@ -73,7 +73,7 @@ CHECKS.update({
              "values); no RefCell guard of a GC cell is held across a call that may collect or re-enter (abort in extern \"C\"); "
              "possibly-object values stored across calls carry a guard; every length reported next to a leaked boxed slice is the "
              "len() of that very vector; a C string returned by foreign code is read before last_error is written; a handle given to a foreign callee is freed only on the `!= result` edge when the returned pointer is taken too. The fulfill_orders and callback double-free defects were repaired (fix: commits). "
-             "Aliasing and lifetime contracts of the API are not decided. No API-layer type stores a bare JsValue / Gc between calls.",
+             "Aliasing and lifetime contracts of the API are not decided. No API-layer type stores a bare JsValue / Gc between calls. Argument arrays keep their positions (NULL is undefined) and host-supplied sizes that extend a collection are bounded (repaired, fix: commit).",
         ref="4/C17"),
 })
 
